@@ -28,6 +28,14 @@ func init() {
 		commonAssumptions, "R-PANIC", "R-EXH", "R-LEXPOS")
 	prop("C15", "Decides the structural clauses of cancellation: the context poll dominates every handler of the dispatch loop and lies on its cycle; the counter is an interpreter field shared by nested execute calls, compared with a constant <= 1000; checkContextNow polls the done channel and returns ctx.Err(); every error return of executeAll after execute/execActions prefers the context's error; child processes are created with CommandContext exactly when a cancellable context is in force; system() prefers the context error after a failed wait; ExecuteContext assigns and Execute clears the context state before executeAll; closeAll is deferred so earlier output is delivered. Not decided: wall-clock latency, interruption of blocking reads, loops that execute no VM instruction.",
 		commonAssumptions, "R-CTX")
+	prop("C07", "Decides the protocol clauses that make record reading independent of how bytes arrive, for all four bufio.SplitFunc splitters (newline via the stdlib, single byte, blank-line, regex): no persistent state is committed on a path that can still answer 'need more data'; a record is delivered only after the terminator search ran (the final unterminated record only after the search failed); a maximal-munch terminator (regex match, newline run) is committed only after comparing its end with len(data), with the need-more return reachable from that test; offsets are used only in the coordinate system of the slice they index (R-SPLIT); NR/FNR are written only by the successful-scan path of nextLine (R-COUNTERS). These are necessary, not sufficient: a regex alternation can still prefer a longer match that starts inside a committed one; the reconstruction equations, bufio's own buffer management and 64 KiB edge behaviour are not decided.",
+		commonAssumptions, "R-SPLIT")
+	prop("C08", "Decides, for the CSV/TSV record scanner, the Scanner-protocol clauses (no persistent state such as the BOM flag, row counter, header callback or the fields pointer is touched on a path that can still answer 'need more data'; the record is delivered only after the line search ran) and the coordinate clause (the record text $0 is sliced from the original data with offsets that count from its start, so it can never contain bytes of a neighbouring record) (R-SPLIT); that no long-lived alias of the current record's field slice is handed to scanners of other streams (R-RECSTATE); separator/comment validation dominates every construction of a splitter or CSV writer (R-CSVCONF). Not decided: RFC 4180 conformance of the field scanner itself, the write-then-read round trip at value level.",
+		commonAssumptions, "R-SPLIT")
+	prop("C06", "Decides the structural clauses of record-state consistency: the NF cache is only ever assigned the length of the field slice; the field- and NF-assignment paths rebuild $0 from the fields before every successful return that follows a store into the field slices; no address of a record-group field is handed to an object that outlives the call (so reads from other streams cannot overwrite the current record's fields); reading a field or special variable reaches no store outside the lazily computed members; setLine invalidates the split and saves FS together with its compiled form, and the lazy splitter consults only the saved FS; the field slices are only re-sliced downwards; the FS/RS 'compile a regex' conditions are the complements of the splitter-selection conditions (R-RECSTATE); trimming/splitting library calls and scanner token limits follow the tabled conventions (R-IOCONV); field-index conversions saturate (R-F2I). Not decided: the splitting results themselves (FS semantics at value level), equivalence of lazy and eager splitting.",
+		commonAssumptions, "R-RECSTATE", "R-IOCONV", "R-F2I")
+	addRules("C07", "R-IOCONV")
+	addRules("C08", "R-IOCONV", "R-RECSTATE:alias,census")
 	addRules("C01", "R-F2I", "R-EXH", "R-SIBLING", "R-VALCONS")
 	prop("C05", "Decides the structural clauses of the value model: the six comparison handlers and their fused-jump siblings apply the operator their AWK token names to (left,right), choose the string branch exactly when either operand is a true string, and the two polarities of a fused condition are complements (R-CMP); Global/Local handler siblings agree (R-SIBLING); input-derived text becomes a numeric-string value at exactly the producers the property lists (fields, getline targets, split, ARGV, ENVIRON, Vars, FILENAME) and nowhere else; number->string conversion uses CONVFMT everywhere except print's OFMT; isTrueStr and boolean share one whole-string recogniser and num() uses the prefix parser (R-VALCONS); the integer special case of number->string is guarded by the round-trip test (R-F2I); the whole-string and prefix recognisers agree on their whitespace class and on out-of-range input (R-NUMPARSE). Not decided: the numeric value of any conversion, CONVFMT/OFMT results, strconv behaviour.",
 		commonAssumptions, "R-CMP", "R-SIBLING", "R-VALCONS", "R-F2I")
